@@ -933,13 +933,14 @@ class _FunctionInformationCollector(ast.RopeNodeVisitor):
         self.maybe_written = self.maybe_written - comp_names | maybe_written
 
     def _flatten_nested_tuple_of_names(self, node):
-        if isinstance(node, ast.Tuple):
+        if isinstance(node, (ast.Tuple, ast.List)):
             for elt in node.elts:
                 yield self._flatten_nested_tuple_of_names(elt)
+        elif isinstance(node, ast.Starred):
+            yield self._flatten_nested_tuple_of_names(node.value)
         elif isinstance(node, ast.Name):
             yield node.id
-        else:
-            assert False, f"Unexpected node type in list comprehension target: {node!r}"
+        # other targets (`a[0]`, `a.b`) do not bind a name
 
     def _If(self, node):
         self._handle_conditional_node(node)
